@@ -4,6 +4,7 @@ import (
 	"bytes"
 	"context"
 	"fmt"
+	"strings"
 	"time"
 
 	"verifharness/ev"
@@ -294,6 +295,10 @@ func c06Exec(run *ev.Run, cs ev.Case) {
 			for _, lk := range []bool{false, true} {
 				for ul := 0; ul <= 40; ul++ {
 					c06Handshake(run, c06HS{Priv: priv, Lookup: lk, ULen: ul, Suite: (priv + ul) % 9, Seed: b.Seed})
+					if ul > 0 && (priv+ul)%3 == 0 {
+						c06Handshake(run, c06HS{Priv: priv, Lookup: lk, ULen: ul, Suite: (priv + ul) % 9, Seed: b.Seed, Runes: -1})
+						c06Handshake(run, c06HS{Priv: priv, Lookup: lk, ULen: ul, Suite: (priv + ul) % 9, Seed: b.Seed, Runes: -2})
+					}
 				}
 				if priv%5 == 0 {
 					for ul := 2; ul <= 48; ul++ {
@@ -578,6 +583,24 @@ func c06Handshake(run *ev.Run, h c06HS) {
 		for len(full) < h.ULen {
 			full += string(rs[r.Intn(len(rs))])
 		}
+	}
+	switch h.Runes {
+	case -1:
+		// a name padded with 0x00 to its length, as copied out of a fixed-width field
+		k := h.ULen - 1 - r.Intn(4)
+		if k < 0 {
+			k = 0
+		}
+		full = randUser(r, k) + strings.Repeat("\x00", h.ULen-k)
+	case -2:
+		// arbitrary bytes: NUL, space, control and high bytes anywhere
+		b := rbytes(r, h.ULen)
+		for i := range b {
+			if r.Intn(3) == 0 {
+				b[i] = []byte{0, ' ', 0xff, '\t', 0x80, 0}[r.Intn(6)]
+			}
+		}
+		full = string(b)
 	}
 	cfg.Username = full
 	if h.ULen > 16 {
